@@ -23,7 +23,7 @@ for rel in ids:
         print("%-12s patch does not apply: %s" % (rel, r.stdout.strip()[:150])); sh("git -C %s checkout -- ." % TREE); results[rel] = dict(applies=False); continue
     out = {}
     try:
-        for prop in (["C%02d" % i for i in range(1, 21)] if ALL else AREA.get(area, [])):
+        for prop in (["C%02d" % i for i in range(1, 21)] if ALL else AREA.get(area, [])[:int(os.environ.get("CHECK_LIMIT", "99"))]):   # CHECK_LIMIT=n: only the n checks closest to the touched area
             t0 = time.time(); r = sh("cd %s && VERIF_REPO=%s VERIF_EVIDENCE_DIR=%s/build/evidence_mutants ./vcheck %s quick" % (HERE, TREE, HERE, prop))
             sig = [l.strip() for l in r.stdout.splitlines() if l.strip().startswith("signature=")]
             out[prop] = dict(exit=r.returncode, first=(sig[0][:300] if sig else ""), wall_s=round(time.time() - t0, 1))
